@@ -171,7 +171,8 @@ FamOK(f) == IF SameFamily /\ Len(hist) > 0 THEN FamOf(hist[1]) = f ELSE TRUE
 
 NextStep ==
   \/ \E k \in AllKeys, v \in Vals, api \in Apis, sp \in 1..2 :
-        /\ FamOK(k[1]) /\ (sp = 2 => k[1] \in TransFams \cup {"pec_thermal_cx", "beam_cx", "beam_emission"})
+        \* sp = 2: the second spelling of the key - transition levels in the other letter case / as strings, the charge as a numpy integer
+        /\ FamOK(k[1])
         /\ Write(k, v, api, sp)
   \/ /\ MaxMulti >= 2
      /\ \E f \in Families : \E k1, k2 \in KeysOf(f) :
